@@ -317,6 +317,12 @@ EFFECTS_M = [
     ('output.attributeCase', 'upper', 'lower', 'p[Title=x]', {}, True),
     ('output.attributeQuotes', 'single', 'double', 'p[title=x]', {}, True),
     ('output.indent', '  ', '      ', 'div>p', {}, True),
+    # boundary values: the empty string, and a value equal to the BUILT-IN default where the syntax's own default differs (xml: selfClosingStyle)
+    ('output.newline', '', '\r\n', 'div>p', {}, False, '<div>\t<p></p></div>', '\r\n'),
+    ('output.indent', '', '  ', 'div>p', {}, False, '\n<p>', '\n  <p>'),
+    ('output.selfClosingStyle', 'html', 'xhtml', 'div>br', {}, False, '<br>', '<br />'),
+    ('output.attributeQuotes', 'double', 'single', 'p[title=x]', {}, False, 'title="x"', "title='x'"),
+    ('output.format', True, False, 'div>p', {}, False, '\n', '<div><p></p></div>'),
     ('output.newline', '\r\n', '\r', 'div>p', {}, True),
     ('output.baseIndent', '  ', '\t\t', 'div>p', {}, True),
     ('output.format', False, True, 'div>p', {}, True),
@@ -421,10 +427,15 @@ def check_effect(case, rec):
 
 def effect_cases():
     for typ, table, syntaxes in (('markup', EFFECTS_M, ('html', 'xml', 'jsx', 'nosuch')), ('stylesheet', EFFECTS_C, ('css', 'stylus', 'nosuch'))):
-        for key, v1, v2, abbr, fixed, text in table:
+        for entry in table:
+            key, v1, v2, abbr, fixed, text = entry[:6]
             if abbr is None:
                 continue
             for syn in syntaxes:
+                if len(entry) > 6:
+                    # entries with literal markers: what the value must make visible in the output
+                    yield {'type': typ, 'syntax': syn, 'key': key, 'v1': v1, 'v2': v2, 'abbr': abbr, 'fixed': fixed, 'text': None, 'm1': entry[6], 'm2': entry[7]}
+                    continue
                 if not isinstance(text, str):
                     yield {'type': typ, 'syntax': syn, 'key': key, 'v1': v1, 'v2': v2, 'abbr': abbr, 'fixed': fixed, 'text': None}
                 if text:
